@@ -100,6 +100,23 @@ CHECKS = {
              "the IBAN; BIC parts must concatenate to the compact form.",
         note="Trusted: reference table merge (checked against the library by C18).",
         design="7/C11"),
+    "C12": dict(
+        technique="exhaustive enumeration of all registry keys/BICs plus generated synthetic registries in package copies, against a "
+                  "reference index and a validity predicate for candidate order and choice",
+        text="Every (country, bank code) key of the bundled registry, unlisted neighbours, an IBAN around every key, and generated "
+             "registries (plain and v2 files, duplicates, empty/null BICs, random primary flags) loaded by copies of the package "
+             "are compared with a reference index built from the JSON files: candidate multiset, primaries first, 8-char / XXX / "
+             "first choice, InvalidBankCode for unlisted pairs, inversion, IBAN-side bank/bic/names.",
+        note="Trusted: reference registry loader (vlib/oracles/reg.py); order inside groups is left free.",
+        design="7/C12"),
+    "C13": dict(
+        technique="generated (country, seed, registry mode, pin set) calls judged by O-iban and table slices; differential across "
+                  "fresh interpreters with varied PYTHONHASHSEED",
+        text="Random generation for every country and the no-country form, with Hypothesis-drawn seeds and pin subsets: result "
+             "valid for the requested country, pins read back unchanged, only the overflow error raised, registry draws belong "
+             "to a listed bank, identical results for equal seeds in-process and in fresh processes under several hash seeds.",
+        note="Trusted: O-iban; pins restricted to field-sized conforming values (what the statement defines).",
+        design="7/C13"),
 }
 
 NOT_YET = "check not built yet in this round (planned in DESIGN.md section 7)"
